@@ -410,7 +410,7 @@ def fingerprint(path):
 
 
 def write_replay(pid, tier, content):
-    d = os.path.join(VERIF, "replays", pid)
+    d = os.path.join(VERIF, "replays", pid) if REPO == "/repo" else os.path.join(VERIF, "replays", repo_tag(), pid)
     os.makedirs(d, exist_ok=True)
     path = os.path.join(d, "%s-%s.txt" % (tier, hashlib.sha1(content.encode()).hexdigest()[:12]))
     with open(path, "w") as f:
@@ -586,8 +586,10 @@ def write_evidence(pid, tier, seed, cfg, theorems, tables, checker_cmd, agg, bro
         "wall_s": round(time.time() - t_start, 2),
         "violations": violations,
     }
-    os.makedirs(os.path.join(VERIF, "evidence"), exist_ok=True)
-    with open(os.path.join(VERIF, "evidence", pid + ".json"), "w") as f:
+    # evidence/ is only written for the real repository; runs against scratch copies go to .cache
+    evdir = os.path.join(VERIF, "evidence") if REPO == "/repo" else os.path.join(CACHE, "evidence-" + repo_tag())
+    os.makedirs(evdir, exist_ok=True)
+    with open(os.path.join(evdir, pid + ".json"), "w") as f:
         json.dump(ev, f, indent=1, sort_keys=True)
         f.write("\n")
 
